@@ -18,6 +18,8 @@ from .c02_sym import (
     Cat,
     ClassVal,
     Closure,
+    CtxGen,
+    DDict,
     Effect,
     EndRun,
     Explorer,
@@ -54,6 +56,25 @@ BUILTIN_FUNCS = {
 PY_MUTATORS = {"append", "extend", "insert", "pop", "popleft", "appendleft", "remove", "clear", "sort", "reverse", "update", "add", "discard", "setdefault", "popitem", "difference_update", "intersection_update", "symmetric_difference_update", "__setitem__", "__delitem__", "__setattr__"}
 PURE_LIBS = ("re", "itertools", "operator", "string", "math", "posixpath", "functools", "_operator")  # stdlib calls folded on constant arguments
 LIBRARY_OBJECT_TYPES = ("networkx.DiGraph", "networkx.Graph", "networkx.MultiDiGraph", "networkx.classes.digraph.DiGraph")
+
+
+def _same_loop_nodes(n: ast.AST, nested: bool = False):
+    """The node and its descendants whose break / return leave the loop (function) the node belongs to: definitions are not entered,
+    and of nested loops only the returns count."""
+    if not nested or isinstance(n, ast.Return):
+        yield n
+    for c in ast.iter_child_nodes(n):
+        if isinstance(c, (ast.FunctionDef, ast.AsyncFunctionDef, ast.Lambda, ast.ClassDef)):
+            continue
+        yield from _same_loop_nodes(c, nested or isinstance(n, (ast.For, ast.AsyncFor, ast.While)))
+
+
+def _guards_exit(s: ast.If) -> bool:
+    r = getattr(s, "_c02_guards_exit", None)
+    if r is None:
+        r = any(isinstance(x, (ast.Break, ast.Return)) for b in [*s.body, *s.orelse] for x in _same_loop_nodes(b))
+        s._c02_guards_exit = r  # type: ignore[attr-defined]
+    return r
 
 
 def _has_yield(fn: ast.AST) -> bool:
@@ -146,12 +167,21 @@ class Interp(InterpBase):
             return self.call_method_builtin(f.recv, f.name, args, kwargs, node, frame)
         if isinstance(f, ExtRef):
             return self.call_ext(f.dotted, args, kwargs, node, frame)
+        if isinstance(f, ExtView) and f.obj.concrete:
+            return self.view_call(f, args, kwargs, node, frame)
         if isinstance(f, ExtView):
             return f  # G.nodes() / G.edges(): the view itself (data= options are not modelled)
         if isinstance(f, type):
             return self.call_pytype(f, args, kwargs, node, frame)
+        if isinstance(f, App) and f.fn.startswith("attr:") and len(f.args) == 1:
+            return self.call_method_builtin(f.args[0], f.fn[5:], args, kwargs, node, frame)  # m = obj.method; m(...) is obj.method(...)
         if isinstance(f, Term):
             return App("callval", (f, *[_h(a) for a in args], *[(k, _h(v)) for k, v in sorted(kwargs.items())]))
+        if isinstance(f, Inst):
+            m = self.repo.lookup_method(f.ci, "__call__")  # callable object
+            if m is not None:
+                return self.call_function(m, [f, *args], kwargs, None, node)
+            raise Raised(None, "TypeError")
         raise Unsupported(f"call of a {type(f).__name__} value", node, frame.fi if frame else None)
 
     def bind_params(self, fn: ast.AST, args: list, kwargs: dict, frame: Frame, fi: FuncInfo | None) -> None:
@@ -187,10 +217,20 @@ class Interp(InterpBase):
             raise Raised(None, "TypeError")
 
     def call_function(self, fi: FuncInfo, args: list, kwargs: dict, closure: Frame | None = None, node: ast.AST | None = None) -> Any:
+        if fi.decorators:
+            if ("contextmanager" in fi.decorators or "asynccontextmanager" in fi.decorators) and self.entering_ctx is not fi:
+                return CtxGen(fi, list(args), dict(kwargs), closure)
+            if "singledispatch" in fi.decorators or "singledispatchmethod" in fi.decorators:
+                fi = self.dispatch_target(fi, args, node)
         if fi.fq in self.ex.stop:
             self.effects.append(Effect("call", None, fi.fq, tuple(args), dict(kwargs), self.in_loop > 0, dict(self.path)))
             return self.new_sym(f"result of {fi.name}")
         if (fi.fq in self.ex.opaque or fi.fq in self.ex.force_opaque) and all(is_immutable(a) for a in [*args, *kwargs.values()]):
+            return App(f"call:{fi.fq}", tuple(_h(a) for a in args) + tuple((k, _h(v)) for k, v in sorted(kwargs.items())))
+        if self.active.count(fi.fq) >= 3 and self.symbolic_args(args, kwargs):
+            # the function has re-entered itself three times on arguments only the oracle knows: a recursion of unknown depth is treated
+            # like a loop of unknown length - its result is an uninterpreted term and what its body may change is forgotten
+            self.forget_effects_of(list(fi.node.body) if not isinstance(fi.node, ast.Lambda) else [fi.node.body], Frame(fi, fi.module, closure))
             return App(f"call:{fi.fq}", tuple(_h(a) for a in args) + tuple((k, _h(v)) for k, v in sorted(kwargs.items())))
         can_fall_back = all(is_immutable(a) for a in [*args, *kwargs.values()]) and not (fi.is_method and not fi.is_staticmethod)
         snap = (len(self.decisions), dict(self.path), len(self.trace), len(self.effects), self.fresh, len(self.body_sites), self.in_loop) if can_fall_back else None
@@ -219,6 +259,50 @@ class Interp(InterpBase):
             self.depth -= 1
 
     def _run_function(self, fi: FuncInfo, args: list, kwargs: dict, closure: Frame | None) -> Any:
+        self.active.append(fi.fq)
+        try:
+            return self._run_function1(fi, args, kwargs, closure)
+        finally:
+            self.active.pop()
+
+    entering_ctx: FuncInfo | None = None
+
+    def dispatch_target(self, fi: FuncInfo, args: list, node: ast.AST | None) -> FuncInfo:
+        """functools.singledispatch[method]: the registered implementation whose type the dispatch argument is an instance of."""
+        method = fi.cls is not None and fi.outer is None
+        k = 1 if method and not fi.is_staticmethod else 0
+        if len(args) <= k:
+            return fi
+        regs = [g for g in [*fi.module.all_funcs, *(fi.cls.extra_methods if fi.cls is not None else [])] if f"{fi.name}.register" in g.decorators and g.cls is fi.cls]
+        best: FuncInfo | None = None
+        for g in regs:
+            types: list = []
+            for d in g.node.decorator_list:
+                if isinstance(d, ast.Call) and isinstance(d.func, ast.Attribute) and d.func.attr == "register" and d.args:
+                    types.append(d.args[0])
+            if not types:
+                params = [*g.node.args.posonlyargs, *g.node.args.args]
+                if len(params) > k and params[k].annotation is not None:
+                    ann = params[k].annotation
+                    if isinstance(ann, ast.Constant) and isinstance(ann.value, str):
+                        ann = ast.parse(ann.value, mode="eval").body
+                    types.append(ann)
+            for texpr in types:
+                tv = self.eval(texpr, Frame(None, g.module))
+                if self.isinstance_(args[k], tv, node, None):
+                    best = g
+        return best or fi
+
+    def symbolic_args(self, args: list, kwargs: dict) -> bool:
+        vals = [*args, *kwargs.values()]
+        return all(is_immutable(a) or isinstance(a, Inst) for a in vals) and any(isinstance(a, Term) or (isinstance(a, tuple) and any(isinstance(x, Term) for x in a)) for a in vals)
+
+    def forget_effects_of(self, body: list, frame: Frame) -> None:
+        for o in self.ext_objs:
+            o.version += 1
+        self.open_after(body, frame)
+
+    def _run_function1(self, fi: FuncInfo, args: list, kwargs: dict, closure: Frame | None) -> Any:
         fn = fi.node
         self.ex.entered.add(fi.fq)
         frame = Frame(fi, fi.module, closure, fi.cls if fi.is_method or fi.cls is not None else None)
@@ -234,6 +318,9 @@ class Interp(InterpBase):
         gen = _has_yield(fn)
         if gen:
             frame.vars["__yields__"] = []
+            if self.entering_ctx is fi and self.ctx_bodies:
+                frame.vars["__ctx_body__"] = self.ctx_bodies.pop()
+                self.entering_ctx = None
         try:
             self.exec_block(fn.body, frame)
         except _Return as r:
@@ -245,6 +332,17 @@ class Interp(InterpBase):
         return None
 
     def call_closure(self, c: Closure, args: list, kwargs: dict) -> Any:
+        key = ("closure", id(c.node))
+        if self.active.count(key) >= 3 and self.symbolic_args(args, kwargs):
+            self.forget_effects_of([c.node.body] if isinstance(c.node, ast.Lambda) else list(c.node.body), c.frame)
+            return App(f"call:{getattr(c.node, 'name', 'lambda')}@{getattr(c.node, 'lineno', 0)}", tuple(_h(a) for a in args) + tuple((k, _h(v)) for k, v in sorted(kwargs.items())))
+        self.active.append(key)
+        try:
+            return self.call_closure1(c, args, kwargs)
+        finally:
+            self.active.pop()
+
+    def call_closure1(self, c: Closure, args: list, kwargs: dict) -> Any:
         fn = c.node
         frame = Frame(c.frame.fi, c.frame.module, c.frame, c.frame.cls_ctx)
         frame.self_name = None
@@ -302,6 +400,23 @@ class Interp(InterpBase):
             return inst
         inst.args = tuple(args)
         return inst
+
+    def record_fields(self, ci: ClassInfo) -> list[str] | None:
+        """Field names, in order, of a dataclass / NamedTuple class of the repository (None for other classes)."""
+        dc = [c for c in reversed(self.repo.mro(ci)) if c.is_dataclass]
+        if not dc and "NamedTuple" in {b.split(".")[-1] for b in self.repo.external_bases(ci)}:
+            dc = list(reversed(self.repo.mro(ci)))
+        if not dc:
+            return None
+        names: list[str] = []
+        for c in dc:
+            for n in c.ann_attrs:
+                if "ClassVar" in ast.unparse(c.ann_attrs[n]):
+                    continue
+                if n in names:
+                    names.remove(n)
+                names.append(n)
+        return names
 
     def eval_field_default(self, e: ast.expr, c: ClassInfo) -> Any:
         if isinstance(e, ast.Call) and isinstance(e.func, ast.Name) and e.func.id == "field":
@@ -408,6 +523,16 @@ class Interp(InterpBase):
                     self.modconst[key] = self.eval(c.class_attrs[name], Frame(None, c.module))
                 return self.modconst[key]
         ext = {b.split(".")[-1] for b in self.repo.external_bases(ci)}
+        if "NamedTuple" in ext and name in ("_replace", "_asdict", "_fields", "_make", "__match_args__", "count", "index"):
+            fields = self.record_fields(ci) or []
+            if name in ("_fields", "__match_args__"):
+                return tuple(fields)
+            if name == "_make":
+                return BoundBuiltin(ClassVal(ci), "namedtuple._make")
+            if inst is not None:
+                return BoundBuiltin(inst, f"namedtuple.{name}")
+        if name == "__match_args__" and self.record_fields(ci) is not None:
+            return tuple(self.record_fields(ci))
         if inst is not None and any(b in PY_EXC for b in ext) and name == "args":
             return inst.args
         if inst is not None and "NodeVisitor" in ext and name in ("visit", "generic_visit"):
@@ -429,7 +554,11 @@ class Interp(InterpBase):
             if isinstance(s.value, ast.Constant):
                 return
             if isinstance(s.value, ast.Yield):
-                self.yields_of(frame, s).append(("item", self.eval(s.value.value, frame) if s.value.value is not None else None))
+                yv = self.eval(s.value.value, frame) if s.value.value is not None else None
+                if frame.lookup("__ctx_body__")[0]:
+                    frame.lookup("__ctx_body__")[1](yv)
+                    return
+                self.yields_of(frame, s).append(("item", yv))
                 return
             if isinstance(s.value, ast.YieldFrom):
                 self.yields_of(frame, s).extend(self.parts_of(self.eval(s.value.value, frame), s, frame))
@@ -449,37 +578,26 @@ class Interp(InterpBase):
             cur = self.eval(_as_load(s.target), frame)
             v = self.eval(s.value, frame)
             if isinstance(cur, list) and isinstance(s.op, ast.Add):
-                kind, items = self.iterate(v, s, frame)
-                if kind != "concrete":
-                    raise Unsupported("list += iterable of unknown length", s, fi)
-                cur.extend(items)
+                self.call_method_builtin(cur, "extend", [v], {}, s, frame)
                 return
             if isinstance(cur, set) and isinstance(s.op, ast.BitOr):
-                kind, items = self.iterate(v, s, frame)
-                if kind != "concrete":
-                    raise Unsupported("set |= iterable of unknown length", s, fi)
-                cur.update(items)
+                self.call_method_builtin(cur, "update", [v], {}, s, frame)
+                return
+            if isinstance(cur, dict) and isinstance(s.op, ast.BitOr):
+                self.call_method_builtin(cur, "update", [v], {}, s, frame)
                 return
             self.assign(s.target, self.binop(s.op, cur, v, s, frame), frame)
         elif isinstance(s, ast.If):
-            if self.truth(self.eval(s.test, frame)):
+            d0 = self.n_asked
+            t = self.truth(self.eval(s.test, frame))
+            if self.n_asked > d0 and self.while_frames and self.while_frames[-1][0] is frame and _guards_exit(s):
+                self.while_frames[-1][1] += 1  # the oracle decided whether the loop goes on
+            if t:
                 self.exec_block(s.body, frame)
             else:
                 self.exec_block(s.orelse, frame)
         elif isinstance(s, ast.While):
-            n = 0
-            while self.truth(self.eval(s.test, frame)):
-                n += 1
-                if n > 5000:
-                    raise Budget("while loop does not terminate on the abstract input", s, fi)
-                try:
-                    self.exec_block(s.body, frame)
-                except _Break:
-                    break
-                except _Continue:
-                    continue
-            else:
-                self.exec_block(s.orelse, frame)
+            self.exec_while(s, frame)
         elif isinstance(s, (ast.For, ast.AsyncFor)):
             self.exec_for(s, frame)
         elif isinstance(s, ast.Return):
@@ -524,14 +642,100 @@ class Interp(InterpBase):
                             raise Raised(None, type(e).__name__)
                     else:
                         raise Unsupported("del of a symbolic subscript", s, fi)
+                elif isinstance(t, ast.Attribute):
+                    o = self.eval(t.value, frame)
+                    if not isinstance(o, (Inst, ANode)):
+                        raise Unsupported(f"del of an attribute of a {type(o).__name__} value", s, fi)
+                    if t.attr not in o.fields:
+                        raise Raised(None, "AttributeError")
+                    del o.fields[t.attr]
+                elif isinstance(t, (ast.Tuple, ast.List)):
+                    self.exec_stmt(ast.copy_location(ast.Delete(targets=list(t.elts)), s), frame)
                 else:
                     raise Unsupported("del statement", s, fi)
-        elif isinstance(s, (ast.Global, ast.Nonlocal)):
-            raise Unsupported("global / nonlocal statement", s, fi)
+        elif isinstance(s, ast.Nonlocal):
+            frame.vars.setdefault("__nonlocal__", set()).update(s.names)
+        elif isinstance(s, ast.Global):
+            if not all(n in frame.module.constants for n in s.names):
+                raise Unsupported("global statement for a name that is not a module-level variable", s, fi)
+            frame.vars.setdefault("__global__", set()).update(s.names)
         elif isinstance(s, (ast.With, ast.AsyncWith)):
-            raise Unsupported("with statement", s, fi)
+            self.exec_with(s, frame, 0)
         else:
             raise Unsupported(f"statement {type(s).__name__}", s, fi)
+
+    def exec_with(self, s: ast.With, frame: Frame, i: int) -> None:
+        """Context managers: repo classes with __enter__ / __exit__, generator functions under contextlib.contextmanager (the body of the
+        `with` runs where the generator yields), contextlib.suppress / nullcontext, and opaque library objects."""
+        if i == len(s.items):
+            self.exec_block(s.body, frame)
+            return
+        item = s.items[i]
+        cm = self.eval(item.context_expr, frame)
+
+        def body(v: Any) -> None:
+            if item.optional_vars is not None:
+                self.assign(item.optional_vars, v, frame)
+            self.exec_with(s, frame, i + 1)
+
+        if isinstance(cm, CtxGen):
+            pending: list = []
+            entered = [False]
+
+            def at_yield(v: Any) -> None:
+                if entered[0]:
+                    raise Raised(None, "RuntimeError")  # generator didn't stop
+                entered[0] = True
+                try:
+                    body(v)
+                except (_Return, _Break, _Continue) as ctl:
+                    pending.append(ctl)  # leaving the with block this way resumes the generator normally (its clean-up runs)
+
+            prev, self.entering_ctx = self.entering_ctx, cm.fi
+            self.ctx_bodies.append(at_yield)
+            try:
+                self.call_function(cm.fi, cm.args, cm.kwargs, cm.closure, s)
+            finally:
+                self.entering_ctx = prev
+                if self.ctx_bodies and self.ctx_bodies[-1] is at_yield:
+                    self.ctx_bodies.pop()
+            if not entered[0]:
+                raise Raised(None, "RuntimeError")  # generator didn't yield
+            if pending:
+                raise pending[0]
+            return
+        if isinstance(cm, Inst):
+            enter, exit_ = self.repo.lookup_method(cm.ci, "__enter__"), self.repo.lookup_method(cm.ci, "__exit__")
+            if enter is None or exit_ is None:
+                enter, exit_ = self.repo.lookup_method(cm.ci, "__aenter__"), self.repo.lookup_method(cm.ci, "__aexit__")
+            if enter is None or exit_ is None:
+                raise Unsupported(f"with statement on a {cm.ci.name} object without __enter__ / __exit__ in the repository", s, frame.fi)
+            v = self.call_function(enter, [cm], {}, None, s)
+            try:
+                body(v)
+            except Raised as r:
+                if not self.truth(self.call_function(exit_, [cm, ExtRef(f"builtins.{r.name}"), r.exc, None], {}, None, s)):
+                    raise
+                return
+            except (_Return, _Break, _Continue, EndRun):
+                self.call_function(exit_, [cm, None, None, None], {}, None, s)
+                raise
+            self.call_function(exit_, [cm, None, None, None], {}, None, s)
+            return
+        if isinstance(cm, tuple) and len(cm) == 2 and cm[0] == "__suppress__":
+            try:
+                body(None)
+            except Raised as r:
+                if not self.handler_matches(cm[1], r):
+                    raise
+            return
+        if isinstance(cm, tuple) and len(cm) == 2 and cm[0] == "__nullcontext__":
+            body(cm[1])
+            return
+        if isinstance(cm, Term):
+            body(App("meth:__enter__", (cm,)))
+            return
+        raise Unsupported(f"with statement on a {type(cm).__name__} value", s, frame.fi)
 
     def yields_of(self, frame: Frame, node: ast.AST) -> list:
         f: Frame | None = frame
@@ -625,11 +829,44 @@ class Interp(InterpBase):
             if not self.isinstance_(v, cls, s, frame):
                 return False
             if p.patterns:
-                raise Unsupported("positional sub-patterns in a class pattern", s, frame.fi)
+                if isinstance(cls, type) and cls in (str, int, float, bool, bytes, list, tuple, dict, set, frozenset) and len(p.patterns) == 1:
+                    if not self.match_pattern(p.patterns[0], v, frame, s):
+                        return False
+                else:
+                    if not isinstance(cls, ClassVal):
+                        raise Unsupported("positional sub-patterns in a pattern of a library class", s, frame.fi)
+                    try:
+                        margs = self.class_attr(cls.ci, "__match_args__", None, s, frame)
+                    except Raised:
+                        raise Raised(None, "TypeError")
+                    if not isinstance(margs, (tuple, list)) or len(p.patterns) > len(margs):
+                        raise Raised(None, "TypeError")
+                    for name, q in zip(margs, p.patterns):
+                        if not self.match_pattern(q, self.getattr_value(v, name, s, frame), frame, s):
+                            return False
             for name, q in zip(p.kwd_attrs, p.kwd_patterns):
                 if not self.match_pattern(q, self.getattr_value(v, name, s, frame), frame, s):
                     return False
             return True
+        if isinstance(p, ast.MatchSequence):
+            if isinstance(v, Inst) and v.args[:1] == ("namedtuple",):
+                v = tuple(v.fields[n] for n in v.args[1:])
+            if isinstance(v, Term):
+                raise Unsupported("sequence pattern against a symbolic value", s, frame.fi)
+            if not isinstance(v, (list, tuple)):
+                return False
+            stars = [i for i, q in enumerate(p.patterns) if isinstance(q, ast.MatchStar)]
+            if not stars:
+                return len(v) == len(p.patterns) and all(self.match_pattern(q, x, frame, s) for q, x in zip(p.patterns, v))
+            k = stars[0]
+            after = len(p.patterns) - k - 1
+            if len(v) < len(p.patterns) - 1:
+                return False
+            if not all(self.match_pattern(q, x, frame, s) for q, x in zip(p.patterns[:k], v[:k])):
+                return False
+            if p.patterns[k].name:
+                frame.vars[p.patterns[k].name] = list(v[k: len(v) - after])
+            return all(self.match_pattern(q, x, frame, s) for q, x in zip(p.patterns[k + 1:], v[len(v) - after:]))
         if isinstance(p, ast.MatchValue):
             return self.equal(v, self.eval(p.value, frame))
         if isinstance(p, ast.MatchSingleton):
@@ -646,9 +883,46 @@ class Interp(InterpBase):
             return "havoc", App("seq", (_h(items),))
         return kind, items
 
+    def open_parts(self, v: Any, what: str = "keys") -> list | None:
+        """Parts of an open container: the items the executor knows, every value known (on this path) to be a member, and an unknown rest."""
+        o = self.opened(v)
+        if o is None:
+            return None
+        src = o.src
+        if isinstance(v, dict):
+            known = list(v.keys())
+            extra = [x for x in self.known_members(o) if self.dict_key(v, x) is _MISSING]
+            if what == "keys":
+                items = [*known, *extra]
+                elem: Any = App("elem", (src,))
+            elif what == "items":
+                items = [(k, v[k]) for k in known] + [(x, App("value", (src, x))) for x in extra]
+                elem = (App("key", (src,)), App("value", (src,)))
+            else:
+                items = [v[k] for k in known] + [App("value", (src, x)) for x in extra]
+                elem = App("value", (src,))
+        else:
+            known = list(v) if isinstance(v, list) else sorted(v, key=show)
+            via: dict = {}
+            for o2 in self.open.values():
+                if o2 is not o and o.attr and o2.attr and o.attr in self.co_inserted(o2.attr):
+                    for x in self.known_members(o2):
+                        via.setdefault(x, o2.name)  # a member of the collection that is filled side by side with this one
+            extra = []
+            for x in [*self.known_members(o), *via]:
+                if not any(y is x or (isinstance(y, (Term, str, int, tuple)) and type(y) is type(x) and y == x) for y in [*known, *extra]):
+                    extra.append(x)
+            items = [*known, *extra]
+            elem = App("elem", (src,))
+        # the items found through a membership decision carry their origin (collection, member): effects of the iteration are attributed to it
+        via = via if not isinstance(v, dict) else {}
+        return [("rep", [elem], src, o.name), *[("item", x) for x in items[: len(known)]], *[("item", x, via.get(m, o.name), m) for x, m in zip(items[len(known):], extra)]]
+
     def iterate3(self, v: Any, node: ast.AST, frame: Frame | None) -> tuple[str, Any]:
         if isinstance(v, Seq):
             return "seq", v
+        if isinstance(v, (list, dict, set)) and self.opened(v) is not None:
+            return "seq", Seq(self.open_parts(v), unordered=True)
         if isinstance(v, (list, tuple)):
             return "concrete", list(v)
         if isinstance(v, dict):
@@ -663,6 +937,10 @@ class Interp(InterpBase):
             return "concrete", list(v)
         if isinstance(v, Term):
             return "havoc", v
+        if isinstance(v, ExtObj) and v.concrete:
+            return "concrete", list(v.cnodes)
+        if isinstance(v, ExtView) and v.obj.concrete:
+            return "concrete", list(self.view_native(v))
         if isinstance(v, ExtObj):
             return "havoc", App(f"extiter@{v.version}", (v.name,))
         if isinstance(v, ExtView):
@@ -693,18 +971,333 @@ class Interp(InterpBase):
     def havoc_site(self, node: ast.AST, frame: Frame) -> str:
         return f"{frame.fi.fq if frame.fi else frame.module.name}:{getattr(node, 'lineno', 0)}:{getattr(node, 'col_offset', 0)}"
 
-    def havoc_after(self, body: list[ast.AST], targets: list[ast.expr], frame: Frame, keep_yields: bool = False) -> None:
+    def havoc_after(self, body: list[ast.AST], targets: list[ast.expr], frame: Frame, keep_yields: bool = False, site: str = "", extra: Any = None) -> None:
+        """Forgets what a skipped loop of unknown length did.  The value a variable has afterwards is an uninterpreted function of the
+        loop (its site) and of everything the loop can read at this point: two executions of the same loop from the same state yield
+        the same term (a helper that is called twice must not produce two unrelated unknowns)."""
         names: set[str] = set()
+        reads: set[str] = set()
         for b in [*body, *targets]:
             for n in ast.walk(b):
-                if isinstance(n, ast.Name) and isinstance(n.ctx, ast.Store):
-                    names.add(n.id)
+                if isinstance(n, ast.Name):
+                    (names if isinstance(n.ctx, ast.Store) else reads).add(n.id)
+        state = []
+        for n in sorted(reads | names):
+            ok, v = frame.lookup(n)
+            if ok and not isinstance(v, (FuncVal, ClassVal, Closure, ExtRef, Partial)):
+                state.append((n, _h(v) if not isinstance(v, ExtObj) else (v.name, v.version)))
+        key = (site, _h(extra), tuple(state))
         for n in sorted(names):
             ok, _ = frame.lookup(n)
             if ok:
-                frame.vars[n] = self.new_sym(f"{n} after loop")
+                frame.vars[n] = App("after", (n, *key))
         for o in self.ext_objs:
             o.version += 1
+        self.open_after(body, frame)
+
+    def exec_while(self, s: ast.While, frame: Frame) -> None:
+        """Concrete unrolling - until the oracle (not the data) has decided twice in a row whether the loop goes on: then the loop is one of
+        unknown length and is treated like a loop over an unknown iterable (skipped with its effects forgotten, or one arbitrary iteration)."""
+        fi = frame.fi
+        n = streak = 0
+        while True:
+            if streak >= 2:
+                site = self.havoc_site(s, frame)
+                if self.structural_decision("loop", site):
+                    self.body_sites.append(site)
+                    self.in_loop += 1
+                    self.havoc_after(s.body, [], frame, site=site)  # an arbitrary iteration, not the third one
+                    if self.truth(self.eval(s.test, frame)):
+                        try:
+                            self.exec_block(s.body, frame)
+                        except (_Break, _Continue):
+                            pass
+                    raise EndRun()
+                self.havoc_after(s.body, [], frame, site=site)
+                if s.orelse:
+                    if any(isinstance(x, ast.Break) for b in s.body for x in _same_loop_nodes(b)):
+                        raise Unsupported("else clause of a while loop of unknown length that can also be left by break", s, fi)
+                    self.exec_block(s.orelse, frame)
+                return
+            d0 = self.n_asked
+            t = self.truth(self.eval(s.test, frame))
+            ctl = self.n_asked > d0
+            if not t:
+                self.exec_block(s.orelse, frame)
+                return
+            n += 1
+            if n > 5000:
+                raise Budget("while loop does not terminate on the abstract input", s, fi)
+            mark = [frame, 0]
+            self.while_frames.append(mark)
+            try:
+                self.exec_block(s.body, frame)
+            except _Break:
+                return
+            except _Continue:
+                pass
+            finally:
+                self.while_frames.pop()
+            streak = streak + 1 if (ctl or mark[1]) else 0
+
+    # ------------------------------------------------------------------ what a skipped loop body may have changed
+    def mutation_summary(self, body: list[ast.AST], frame: Frame) -> dict:
+        """Syntactic may-mutate summary of a loop body and everything it may call (callees resolved by name, as in `effect_only`):
+        names: local names whose container is mutated in place; attrs: attribute names whose container is mutated / that are re-bound;
+        anyarg: a callee mutates one of its parameters; removing: some mutation may remove elements."""
+        key = (id(body[0]) if body else 0, len(body))
+        memo = self.ex.__dict__.setdefault("mutation_memo", {})
+        if key in memo:
+            return memo[key]
+        REMOVERS = {"pop", "popleft", "remove", "clear", "discard", "popitem", "difference_update", "intersection_update", "symmetric_difference_update", "__delitem__"}
+        out = {"names": set(), "attrs": set(), "rebound": set(), "anyarg": False, "removing": False}
+        by_name: dict[str, list[FuncInfo]] = memo.get("by_name") or {}
+        if not by_name:
+            for f in self.repo.funcs.values():
+                by_name.setdefault(f.name, []).append(f)
+            memo["by_name"] = by_name
+
+        def receiver(e: ast.expr, params: set[str] | None) -> None:
+            while isinstance(e, ast.Subscript):
+                e = e.value
+            if isinstance(e, ast.Name):
+                if params is None:
+                    out["names"].add(e.id)
+                elif e.id in params:
+                    out["anyarg"] = True
+                elif ("<free>", e.id) in params:
+                    out["names"].add(e.id)  # free variable of a nested function: a name of an enclosing frame
+            elif isinstance(e, ast.Attribute):
+                out["attrs"].add(e.attr)
+            else:
+                out["anyarg"] = True
+
+        def enter(g: FuncInfo) -> None:
+            if g.fq in seen or isinstance(g.node, ast.Lambda):
+                return
+            seen.add(g.fq)
+            fresh = g.param_names[0] if g.name in ("__init__", "__post_init__", "__new__") and g.param_names else None
+            params: set = set(g.param_names)
+            if g.outer is not None:
+                own = {n.id for n in own_nodes(g.node) if isinstance(n, ast.Name) and isinstance(n.ctx, ast.Store)} | params
+                params |= {("<free>", n.id) for n in own_nodes(g.node) if isinstance(n, ast.Name) and n.id not in own}
+            todo.append((list(g.node.body), params, fresh))
+
+        seen: set[str] = set()
+        todo: list[tuple[list[ast.AST], set[str] | None, Any]] = [(list(body), None, None)]
+        while todo:
+            nodes, params, fresh = todo.pop()
+            for b in nodes:
+                for n in ast.walk(b):
+                    if isinstance(n, ast.Call):
+                        if isinstance(n.func, ast.Attribute):
+                            if n.func.attr in PY_MUTATORS:
+                                receiver(n.func.value, params)
+                                if n.func.attr in REMOVERS:
+                                    out["removing"] = True
+                            for g in by_name.get(n.func.attr, []):
+                                enter(g)
+                        elif isinstance(n.func, ast.Name):
+                            for g in by_name.get(n.func.id, []):
+                                if g.cls is None or g.outer is not None:
+                                    enter(g)
+                            for c in self.repo.classes.values():
+                                if c.name == n.func.id:
+                                    for g in (self.repo.lookup_method(c, "__init__"), self.repo.lookup_method(c, "__post_init__")):
+                                        if g is not None:
+                                            enter(g)
+                            if n.func.id in ("setattr", "delattr"):
+                                out["anyarg"] = True
+                    elif isinstance(n, ast.Subscript) and isinstance(n.ctx, (ast.Store, ast.Del)):
+                        receiver(n.value, params)
+                        if isinstance(n.ctx, ast.Del):
+                            out["removing"] = True
+                    elif isinstance(n, ast.Attribute) and isinstance(n.ctx, (ast.Store, ast.Del)):
+                        if not (fresh is not None and isinstance(n.value, ast.Name) and n.value.id == fresh):
+                            out["rebound"].add(n.attr)
+                    elif isinstance(n, ast.AugAssign) and isinstance(n.target, (ast.Name, ast.Attribute)):
+                        receiver(n.target, params)  # lst += [...] mutates in place
+        memo[key] = out
+        return out
+
+    def is_memo_attr(self, attr: str) -> bool:
+        """`<obj>.attr` is used as a memo table everywhere in the repository: its membership is only ever asked to guard the fill of the
+        same key (`if k not in d: d[k] = e`, or `if k in d: return d[k]` followed by the fill), values are read by `d[k]`, nothing
+        iterates it, measures it or hands it on.  What a skipped loop stored in such a table does not change what a later lookup
+        yields (the value expression is taken to be a function of the key), so the table need not be opened: the executor recomputes
+        the value on the miss branch, which is the value the hit branch would find."""
+        from core.loader import parent
+
+        memo = self.ex.__dict__.setdefault("memo_attrs", {})
+        if attr in memo:
+            return memo[attr]
+
+        def same(a: ast.AST, b: ast.AST) -> bool:
+            return ast.dump(a) == ast.dump(b)
+
+        def block_of(st: ast.AST) -> list:
+            p = parent(st)
+            for fld in ("body", "orelse", "finalbody"):
+                b = getattr(p, fld, None)
+                if isinstance(b, list) and any(x is st for x in b):
+                    return b
+            return []
+
+        def fill_of(st: ast.AST, d: ast.AST, k: ast.AST) -> bool:
+            """st stores d[k] (possibly `v = d[k] = e`)."""
+            return isinstance(st, ast.Assign) and any(isinstance(t, ast.Subscript) and same(t.value, d) and same(t.slice, k) for t in st.targets)
+
+        def guarded_fill(test: ast.Compare) -> bool:
+            """The membership test is the test of one of the two memo forms."""
+            i = parent(test)
+            if isinstance(i, ast.UnaryOp) and isinstance(i.op, ast.Not):
+                neg, i = True, parent(i)
+            else:
+                neg = False
+            if not isinstance(i, ast.If) or len(test.ops) != 1 or i.orelse:
+                return False
+            k, d = test.left, test.comparators[0]
+            missing = isinstance(test.ops[0], ast.NotIn) != neg
+            if missing:
+                return len(i.body) == 1 and fill_of(i.body[0], d, k)
+            if len(i.body) == 1 and isinstance(i.body[0], ast.Return) and isinstance(i.body[0].value, ast.Subscript) and same(i.body[0].value.value, d) and same(i.body[0].value.slice, k):
+                blk = block_of(i)
+                rest = blk[[x is i for x in blk].index(True) + 1:] if blk else []
+                return any(fill_of(x, d, k) for x in rest)
+            return False
+
+        ok, forms = True, 0
+        for f in self.repo.funcs.values():
+            if not ok:
+                break
+            if isinstance(f.node, ast.Lambda):
+                continue
+            for n in own_nodes(f.node):
+                if not (isinstance(n, ast.Attribute) and n.attr == attr):
+                    continue
+                p = parent(n)
+                if isinstance(n.ctx, ast.Store):
+                    continue  # (re-)initialisation
+                if isinstance(p, ast.Subscript) and p.value is n:
+                    if isinstance(p.ctx, ast.Load):
+                        continue
+                    if isinstance(p.ctx, ast.Store):
+                        st = parent(p)
+                        blk = block_of(st) if isinstance(st, ast.Assign) else []
+                        i = parent(st) if isinstance(st, ast.Assign) else None
+                        in_form_a = isinstance(i, ast.If) and isinstance(i.test, (ast.Compare, ast.UnaryOp)) and len(i.body) == 1
+                        in_form_b = any(isinstance(x, ast.If) and isinstance(x.test, ast.Compare) and guarded_fill(x.test) and same(x.test.comparators[0], n) and same(x.test.left, p.slice) for x in blk[: [y is st for y in blk].index(True)]) if blk else False
+                        if in_form_a:
+                            t = i.test.operand if isinstance(i.test, ast.UnaryOp) else i.test
+                            in_form_a = isinstance(t, ast.Compare) and guarded_fill(t) and same(t.comparators[0], n) and same(t.left, p.slice)
+                        if in_form_a or in_form_b:
+                            continue
+                    ok = False
+                    break
+                if isinstance(p, ast.Compare) and any(c is n for c in p.comparators) and len(p.ops) == 1 and isinstance(p.ops[0], (ast.In, ast.NotIn)):
+                    if guarded_fill(p):
+                        forms += 1
+                        continue
+                ok = False
+                break
+        memo[attr] = ok and forms > 0
+        return memo[attr]
+
+    INSERTERS = {"add": 0, "append": 0, "appendleft": 0, "setdefault": 0, "insert": 1}
+
+    def co_inserted(self, attr: str) -> set[str]:
+        """Attribute names L such that every insertion of an element into `<obj>.attr` anywhere in the repository stands next to (same
+        block) an insertion of the same expression into `<obj>.L`, and nothing is ever removed from `<obj>.L`: a member of the one is a
+        member of the other (a set for membership kept beside a list for the order, ...)."""
+        from core.loader import parent
+
+        memo = self.ex.__dict__.setdefault("co_inserted", {})
+        if attr in memo:
+            return memo[attr]
+
+        def insertion(st: ast.AST) -> list[tuple[str, str, str]]:
+            """(receiver base, attribute, element) for a statement that inserts one element into `<base>.<attribute>`."""
+            out = []
+            if isinstance(st, ast.Expr) and isinstance(st.value, ast.Call) and isinstance(st.value.func, ast.Attribute) and st.value.func.attr in self.INSERTERS:
+                recv, k = st.value.func.value, self.INSERTERS[st.value.func.attr]
+                if isinstance(recv, ast.Attribute) and len(st.value.args) > k:
+                    out.append((ast.dump(recv.value), recv.attr, ast.dump(st.value.args[k])))
+            elif isinstance(st, ast.Assign):
+                for tg in st.targets:
+                    if isinstance(tg, ast.Subscript) and isinstance(tg.value, ast.Attribute):
+                        out.append((ast.dump(tg.value.value), tg.value.attr, ast.dump(tg.slice)))
+            return out
+
+        REMOVERS = {"pop", "popleft", "remove", "clear", "discard", "popitem", "difference_update", "intersection_update", "symmetric_difference_update"}
+        cands: set[str] | None = None
+        removed_from: set[str] = set()
+        for f in self.repo.funcs.values():
+            if isinstance(f.node, ast.Lambda):
+                continue
+            for n in own_nodes(f.node):
+                if isinstance(n, ast.Attribute) and isinstance(parent(n), ast.Attribute) and parent(n).value is n and parent(n).attr in REMOVERS:
+                    removed_from.add(n.attr)
+                if isinstance(n, ast.Subscript) and isinstance(n.ctx, ast.Del) and isinstance(n.value, ast.Attribute):
+                    removed_from.add(n.value.attr)
+                if not isinstance(n, ast.Attribute) or n.attr != attr or isinstance(n.ctx, ast.Store):
+                    continue
+                p = parent(n)
+                mutating = (isinstance(p, ast.Attribute) and p.value is n and p.attr in PY_MUTATORS) or (isinstance(p, ast.Subscript) and p.value is n and isinstance(p.ctx, ast.Store)) or isinstance(p, ast.AugAssign)
+                if not mutating:
+                    continue
+                st = p
+                while st is not None and not isinstance(st, ast.stmt):
+                    st = parent(st)
+                mine = [x for x in insertion(st) if x[1] == attr] if st is not None else []
+                if not mine:
+                    cands = set()  # a bulk / unrecognised mutation: no relation can be claimed
+                    continue
+                blk = next((b for fld in ("body", "orelse", "finalbody") if isinstance(b := getattr(parent(st), fld, None), list) and any(x is st for x in b)), [st])
+                here = {x[1] for other in blk for x in insertion(other) if x[1] != attr and (x[0], x[2]) == (mine[0][0], mine[0][2])}
+                cands = here if cands is None else cands & here
+        memo[attr] = (cands or set()) - removed_from
+        return memo[attr]
+
+    def live_values(self, frame: Frame) -> list:
+        """Values bound to the local names of the active frame (and its enclosing closures)."""
+        out = []
+        f: Frame | None = frame
+        while f is not None:
+            out.extend(v for k, v in f.vars.items() if not k.startswith("__"))
+            f = f.parent
+        return out
+
+    def open_after(self, body: list[ast.AST], frame: Frame) -> None:
+        summ = self.mutation_summary(body, frame)
+        if not (summ["names"] or summ["attrs"] or summ["rebound"] or summ["anyarg"]):
+            return
+        removing = summ["removing"]
+        for n in sorted(summ["names"]):
+            ok, v = frame.lookup(n)
+            if ok and isinstance(v, (list, dict, set)):
+                self.open_container(v, n, removing)
+        roots = self.live_values(frame)
+        if summ["anyarg"]:
+            for v in roots:
+                if isinstance(v, (list, dict, set)) and not any(v is frame.lookup(n)[1] for n in summ["names"]):
+                    self.open_container(v, "container", removing)
+        if summ["attrs"] or summ["rebound"]:
+            seen: set[int] = set()
+            todo = [v for v in roots if isinstance(v, Inst)]
+            while todo:
+                o = todo.pop()
+                if id(o) in seen:
+                    continue
+                seen.add(id(o))
+                for k, v in list(o.fields.items()):
+                    if isinstance(v, Inst):
+                        todo.append(v)
+                    if k in summ["attrs"] and isinstance(v, (list, dict, set)):
+                        if not (isinstance(v, dict) and self.is_memo_attr(k)):
+                            self.open_container(v, k, removing)
+                            self.opened(v).attr = k
+                    elif k in summ["rebound"] and not isinstance(v, (ExtObj, FuncVal, ClassVal)):
+                        o.fields[k] = self.new_sym(f"{k} after loop")
 
     def exec_for(self, s: ast.For, frame: Frame) -> None:
         parts = self.parts_of(self.eval(s.iter, frame), s, frame)
@@ -713,6 +1306,8 @@ class Interp(InterpBase):
         for part in parts:
             if part[0] == "item":
                 self.assign(s.target, part[1], frame)
+                if len(part) > 2:
+                    self.iter_origins.append((part[2], part[3]))
                 try:
                     self.exec_block(s.body, frame)
                 except _Break:
@@ -720,6 +1315,9 @@ class Interp(InterpBase):
                     break
                 except _Continue:
                     continue
+                finally:
+                    if len(part) > 2:
+                        self.iter_origins.pop()
                 continue
             _tag, template, source, _site = part
             if yields_inside:
@@ -745,7 +1343,7 @@ class Interp(InterpBase):
                 if any(p[0] != "item" for p in added):
                     raise Unsupported("nested segments of unknown length in a generator", s, frame.fi)
                 ys.append(("rep", [p[1] for p in added], source, self.havoc_site(s, frame)))
-                self.havoc_after(s.body, [s.target], frame, keep_yields=True)
+                self.havoc_after(s.body, [s.target], frame, keep_yields=True, site=self.havoc_site(s, frame), extra=source)
                 continue
             if self.structural_decision("loop", self.havoc_site(s, frame)):
                 self.body_sites.append(self.havoc_site(s, frame))
@@ -761,7 +1359,7 @@ class Interp(InterpBase):
                     except _Break:
                         break
                 raise EndRun()
-            self.havoc_after(s.body, [s.target], frame)
+            self.havoc_after(s.body, [s.target], frame, site=self.havoc_site(s, frame), extra=source)
         if not broke:
             self.exec_block(s.orelse, frame)
 
@@ -821,6 +1419,17 @@ class Interp(InterpBase):
     # ------------------------------------------------------------------ assignment
     def assign(self, t: ast.expr, v: Any, frame: Frame) -> None:
         if isinstance(t, ast.Name):
+            if t.id in frame.vars.get("__global__", ()):
+                self.module_global(frame.module, t.id)  # evaluates the initial value first
+                self.modconst[(frame.module.name, t.id)] = v
+                return
+            if t.id in frame.vars.get("__nonlocal__", ()):
+                f = frame.parent
+                while f is not None and t.id not in f.vars:
+                    f = f.parent
+                if f is not None:
+                    f.vars[t.id] = v
+                    return
             frame.vars[t.id] = v
         elif isinstance(t, (ast.Tuple, ast.List)):
             if any(isinstance(x, ast.Starred) for x in t.elts):
@@ -1062,8 +1671,23 @@ class Interp(InterpBase):
             return App(type(op).__name__.lower(), (_h(a), _h(b)))
         raise Unsupported(f"operator {type(op).__name__} on {type(a).__name__} and {type(b).__name__}", node, fi)
 
-    def subscript(self, c: Any, k: Any, node: ast.AST, frame: Frame) -> Any:
-        fi = frame.fi
+    def subscript(self, c: Any, k: Any, node: ast.AST, frame: Frame | None) -> Any:
+        fi = frame.fi if frame is not None else None
+        if isinstance(c, (list, dict)) and self.opened(c) is not None:
+            o = self.opened(c)
+            if isinstance(c, dict):
+                key = self.dict_key(c, _hashable(k))
+                if key is not _MISSING:
+                    return c[key]
+                if self.decide(self.member_atom(o, k)):
+                    return App("value", (o.src, _h(k)))
+                if isinstance(c, DDict) and c.factory is not None:
+                    c[_hashable(k)] = self.call(c.factory, [], {}, node, frame)
+                    return c[_hashable(k)]
+                raise Raised(None, "KeyError")
+            if isinstance(k, slice):
+                k = App("slice", (k.start, k.stop, k.step))
+            return App("index", (o.src, _h(k)))
         if isinstance(c, (list, tuple, str)):
             if isinstance(k, (int, slice)) and not isinstance(k, bool):
                 try:
@@ -1078,11 +1702,14 @@ class Interp(InterpBase):
             key = self.dict_key(c, hk)
             if key is not _MISSING:
                 return c[key]
+            if isinstance(c, DDict) and c.factory is not None:
+                c[hk] = self.call(c.factory, [], {}, node, frame)
+                return c[hk]
             raise Raised(None, "KeyError")
         if isinstance(c, Seq):
             if c.concrete:
                 return self.subscript(c.items(), k, node, frame)
-            if isinstance(k, int) and not isinstance(k, bool):
+            if isinstance(k, int) and not isinstance(k, bool) and not c.unordered:
                 lead = []
                 for p in c.parts:
                     if p[0] != "item":
@@ -1104,6 +1731,14 @@ class Interp(InterpBase):
             if isinstance(k, slice):
                 k = App("slice", (k.start, k.stop, k.step))
             return App("index", (c, _h(k)))
+        if isinstance(c, ExtObj) and c.concrete:
+            if not is_native(k):
+                raise Unsupported("symbolic node in a concrete graph", node, fi)
+            if k not in c.cadj:
+                raise Raised(None, "KeyError")
+            return c.cadj[k]
+        if isinstance(c, ExtView) and c.obj.concrete:
+            return self.subscript(self.view_native(c), k, node, frame)
         if isinstance(c, ExtObj):
             return ExtView(c, "adj1", k)
         if isinstance(c, ExtView):
@@ -1138,7 +1773,7 @@ class Interp(InterpBase):
 
     def value_equality(self, v: Inst) -> bool:
         """The instance's class (or a base inside the repository) defines __eq__: containers compare it by value."""
-        return self.repo.lookup_method(v.ci, "__eq__") is not None or dataclass_eq(v.ci)
+        return self.repo.lookup_method(v.ci, "__eq__") is not None or dataclass_eq(v.ci) or v.args[:1] == ("namedtuple",)
 
     def dict_key(self, d: dict, k: Any) -> Any:
         """The key of `d` equal to k: structurally, or by an equality already decided on this path (distinct terms are distinct keys)."""
@@ -1228,11 +1863,17 @@ class Interp(InterpBase):
             return SuperVal(f.vars[f.self_name], f.cls_ctx)
         func = self.eval(e.func, frame)
         args: list = []
-        for a in e.args:
+        for i, a in enumerate(e.args):
             if isinstance(a, ast.Starred):
                 kind, items = self.iterate(self.eval(a.value, frame), e, frame)
                 if kind != "concrete":
-                    raise Unsupported("*args of unknown length", e, fi)
+                    # an opaque tuple splatted into a call of known arity: it has exactly as many elements as the callee still takes
+                    n = self.positional_arity(func, {k.arg for k in e.keywords if k.arg})
+                    rest = len(e.args) - i - 1
+                    if n is None or any(isinstance(x, ast.Starred) for x in e.args[i + 1:]) or n - len(args) - rest < 0:
+                        raise Unsupported("*args of unknown length", e, fi)
+                    args.extend(App("index", (items, j)) for j in range(n - len(args) - rest))
+                    continue
                 args.extend(items)
             else:
                 args.append(self.eval(a, frame))
@@ -1255,6 +1896,58 @@ class Interp(InterpBase):
                 o.version += 1
             return None
         return self.call(func, args, kwargs, e, frame)
+
+    EXT_ARITY = {"add_edge": 2, "has_edge": 2, "remove_edge": 2, "get_edge_data": 2, "add_node": 1, "has_node": 1, "remove_node": 1, "has_successor": 2, "has_predecessor": 2}
+
+    def positional_arity(self, f: Any, keywords: set[str]) -> int | None:
+        """Number of positional arguments a call of f takes when it takes a fixed number (required positional parameters not given by keyword)."""
+        if isinstance(f, BoundBuiltin) and isinstance(f.recv, ExtObj):
+            return self.EXT_ARITY.get(f.name)
+        fn = f.fi.node if isinstance(f, FuncVal) else f.node if isinstance(f, Closure) else None
+        if fn is None or fn.args.vararg is not None:
+            return None
+        pos = [p.arg for p in [*fn.args.posonlyargs, *fn.args.args]]
+        if isinstance(f, FuncVal) and f.self_val is not None:
+            pos = pos[1:]
+        required = pos[: len(pos) - len(fn.args.defaults)] if fn.args.defaults else pos
+        return len([p for p in required if p not in keywords])
+
+    # ------------------------------------------------------------------ concrete graph views
+    def view_native(self, w: ExtView) -> Any:
+        """The native (live where networkx' is live) value of a view of a concrete graph."""
+        o = w.obj
+        if w.kind == "nodes":
+            return o.cnodes
+        if w.kind == "adj":
+            return o.cadj
+        if w.kind == "edges":
+            return {(u, v): a for u in o.cnodes for v, a in o.cadj.get(u, {}).items()}
+        if w.kind == "pred":
+            return {n: {u: o.cadj[u][n] for u in o.cnodes if n in o.cadj.get(u, {})} for n in o.cnodes}
+        if not is_native(w.key):
+            raise Unsupported("symbolic node in a concrete graph")
+        if w.key not in o.cnodes:
+            raise Raised(None, "NetworkXError")
+        if w.kind == "adj1":
+            return o.cadj[w.key]
+        return {u: o.cadj[u][w.key] for u in o.cnodes if w.key in o.cadj.get(u, {})}
+
+    def view_call(self, w: ExtView, args: list, kwargs: dict, node: ast.AST | None, frame: Frame | None) -> Any:
+        """G.nodes(data=...) / G.edges(data=..., default=...) of a concrete graph."""
+        data = kwargs.get("data", args[0] if args and w.kind == "nodes" else False)
+        default = kwargs.get("default")
+        nat = self.view_native(w)
+        if w.kind == "nodes":
+            if data is False:
+                return list(nat)
+            return [(n, a if data is True else a.get(data, default)) for n, a in nat.items()]
+        if w.kind == "edges":
+            if args and args[0] is not None:
+                raise Unsupported("G.edges(nbunch)", node, frame.fi if frame else None)
+            if data is False:
+                return list(nat)
+            return [(u, v, a if data is True else a.get(data, default)) for (u, v), a in nat.items()]
+        raise Unsupported(f"call of a {w.kind} view", node, frame.fi if frame else None)
 
     # ------------------------------------------------------------------ isinstance
     def isinstance_(self, v: Any, t: Any, node: ast.AST | None, frame: Frame | None) -> bool:
